@@ -43,6 +43,16 @@ def run(ctx):
             hist[k] = hist.get(k, 0) + v
         if sample and len(samples) < 2:
             samples.append([l[:100] for l in sample])
+    # one repetition releases more than 65 536 sectors at once (a 34 MiB stream in a version-3 file): decided on
+    # the implementation alone, by the length of the backing file after each of four repetitions
+    rc_h, out_h = C.harness(["phys", "--huge-cycle", "--ops", ctx.path("hc.ops"), "--impl", ctx.path("hc.impl")], timeout=1800)
+    st_h, _, oracle_h = C.parse_stats(out_h)
+    for msg in oracle_h:
+        C.add_violation(ctx, "huge-cycle", msg[:400], "# C15: %s\n# replay: harness phys --huge-cycle --ops o --impl i\ncreate 3\n(4 x) putpat /big 34MiB+77 ; rm /big ; file length\n" % msg[:1500])
+    if rc_h != 0 and not oracle_h:
+        ctx.undischarged.append("harness phys --huge-cycle crashed: " + out_h[-300:])
+    total_ops += 9
+    hist["cycle:huge(34MiB,V3)x4"] = 1
     ctx.coverage.update({
         "evaluations": total_ops,
         "distinct_nontrivial": distinct,
